@@ -10,7 +10,7 @@ Contract on tokenizer.tokenize, with an INDEPENDENT tokenizer built from the doc
 Scope: ALL strings of length <= 4 over a 22-character alphabet that hits every character class (quick: <= 3
 exhaustive, length 4 sampled), seeded token soup, mutated corpus files, every Unicode line terminator
 str.splitlines recognises.  Ground: the documented table is the tokenizer's (ordered).  Python's `re` is
-trusted on both sides.  Bounded stand-in; the E1 contract on _tokenize_line is not built."""
+trusted on both sides.  The proof part is the E1 slice contract on the loop body of _tokenize_line (contracts/tokenizer.py); the rest is a bounded stand-in."""
 import importlib
 import itertools
 import multiprocessing
@@ -179,6 +179,20 @@ def main(args):
     for o in rr.obs:
         if "token-rules" in o.name:
             run.add(o)
+    # E1 (proof part): one iteration of the longest-match loop of _tokenize_line over abstract pattern tables
+    from vlib import pool
+    from contracts import tokenizer as ctok
+    n0 = len(run.obligations)
+    pool.run_targets(run, "contracts.tokenizer", ["line_loop"])
+    for ob in run.obligations[n0:]:
+        if ob.verdict == core.REFUTED:
+            ob.replay = ctok.replay_line_loop(ob.name, ob.model)
+    run.function("compiler.front_end.tokenizer._tokenize_line",
+                 "pyvc: the body of its `while offset < len(line)` loop executed symbolically from any (line length, offset, line number) over abstract literal / regex tables: "
+                 "longest match, ties to the earliest pattern, error iff nothing matches, token symbol/text/location, offset advances by the match length")
+    run.assume(*core.STANDING_ASSUMPTIONS["E1"])
+    run.assume("_tokenize_line: `str.startswith` and `re.match` are uninterpreted (a match is a boolean plus a length within the rest of the line); tables of <= 3 literals and <= 3 regexes stand for the "
+               "module's tables (the loop treats every entry alike); the induction from one iteration to the whole line, and tokenize()'s line splitting and Indent/Dedent logic, are covered by the bounded part only")
     groups = {}
     short = ["".join(t) for n in range(0, 4) for t in itertools.product(ALPHABET, repeat=n)]
     groups["all-strings<=3"] = short
